@@ -57,10 +57,10 @@ Lemma name_write_sound_stmt : forall o n c file t file' t',
     (forall ext endp, (length file' <= endp)%nat -> get_name (file' ++ ext) o endp (length file) = Ok (n', length file')).
 Proof. intros o n c file t file' t' OO. exact (name_write_sound_lemma o OO n c file t file' t'). Qed.
 
-Lemma render_table_sound_stmt : forall o m max_size request_payload r,
-  org_ok o -> WfMsg o m -> mtsig m = None -> to_wire_st m o max_size request_payload false 0 = Ok r ->
+Lemma render_table_sound_stmt : forall o pad m max_size request_payload r,
+  org_ok o -> WfMsg o m -> wf_tsig m -> to_wire_st m o max_size request_payload false pad = Ok r ->
   TableSound (out r) (tbl r).
-Proof. intros o m ms rp r OO. exact (render_table_sound_lemma o OO m ms rp r). Qed.
+Proof. intros o pad m ms rp r OO. exact (render_table_sound_pad_lemma o OO pad m ms rp r). Qed.
 
 Lemma render_parse_padded_stmt : forall o pad m max_size request_payload w,
   org_ok o -> WfMsg o m -> wf_tsig m ->
